@@ -220,6 +220,32 @@ def count_index(e):
     return None, n
 
 
+def index_order(e):
+    """The arguments k of the di.I(k) calls indexing m.F[..][..], OUTERMOST array dimension first (None for an index that is not di.I(<literal>))."""
+    idx = []
+    while e[0] in ("paren", "index", "un", "call", "bin"):
+        if e[0] == "bin":
+            e = e[2]
+        elif e[0] == "index":
+            ix = e[2]
+            k = None
+            while ix[0] == "paren":
+                ix = ix[1]
+            if ix[0] == "call" and ix[1][0] == "sel" and ix[1][2] == "I" and len(ix[2]) == 1 and isinstance(ix[2][0][1], (int, str)) and str(ix[2][0][1]).isdigit():
+                k = int(ix[2][0][1])
+            idx.append(k)
+            e = e[1]
+        elif e[0] == "paren":
+            e = e[1]
+        elif e[0] == "un":
+            e = e[2]
+        elif e[0] == "call":
+            if not e[2]:
+                break
+            e = e[2][0]
+    return idx[::-1]
+
+
 def switch_cases(meth):
     """{case number: [statements]} of `switch di.F() {...}`"""
     for s in meth[5]:
@@ -318,6 +344,10 @@ def check_message(m: gofront.Machine, md: MessageDef, sname: str, problems):
                 if target is None:
                     continue
                 root, nidx = count_index(target)
+                order = index_order(target)
+                if root == g and nidx == depth and order != list(range(depth)):
+                    problems.append(("accessor", "%s.%s case %d indexes %s with di.I%s; the array-index stack is outermost first: expected di.I%s" % (
+                        sname, label, n, root, order, list(range(depth)))))
                 if root != g or nidx != depth:
                     problems.append(("accessor", "%s.%s case %d addresses %s with %d index operation(s); field %d is %s with array depth %d" % (
                         sname, label, n, root, nidx, n, g, depth)))
